@@ -191,6 +191,8 @@ def check_literal(p, col):
 
 def per_program(p):
     col = p.col
+    if p.data is not None and p.draw(st.integers(0, 2)) == 0:
+        p.warm("unmarshaller")   # the routines of the other direction built first
     check_literal(p, col)
     try:
         vs = U.values(p.spec, p.mat)
